@@ -603,14 +603,14 @@ Section Composite.
   Proof.
     intros Htick Hmap Hdes Hrem Hchg c u c' H. unfold apply_update_message in H. cbv zeta in H.
     set (c0 := set_upd_tick c (u_tick u)) in *.
-    set (c1 := fold_left (fun c m => apply_entity_mapping c (fst m) (snd m)) (u_maps u) c0) in *.
-    set (c2 := fold_left apply_despawn (u_despawns u) c1) in *.
+    set (c1 := fold_left apply_despawn (u_despawns u) c0) in *.
+    set (c2 := fold_left (fun c m => apply_entity_mapping c (fst m) (snd m)) (u_maps u) c1) in *.
     apply bind_ok in H. destruct H as [r3 [E3 H]].
     assert (H0 : R c c0) by apply Htick.
     assert (H1 : R c0 c1).
-    { exact (fold_left_rel R _ _ R_refl R_trans (fun c4 a _ => Hmap c4 (fst a) (snd a)) c0). }
+    { exact (fold_left_rel R _ _ R_refl R_trans (fun c4 a _ => Hdes c4 a) c0). }
     assert (H2 : R c1 c2).
-    { exact (fold_left_rel R _ _ R_refl R_trans (fun c4 a _ => Hdes c4 a) c1). }
+    { exact (fold_left_rel R _ _ R_refl R_trans (fun c4 a _ => Hmap c4 (fst a) (snd a)) c1). }
     assert (H3 : R c2 (sr_client r3)).
     { refine (run_array_rel R _ _ R_refl R_trans _ _ _ E3). intros c4 a r _. apply Hrem. }
     assert (H03 : R c (sr_client r3)) by eauto.
@@ -676,14 +676,14 @@ Lemma update_tick_follows_messages c u c' : apply_update_message c u = Ok c' -> 
 Proof.
   intros H. unfold apply_update_message in H. cbv zeta in H.
   set (c0 := set_upd_tick c (u_tick u)) in *.
-  set (c1 := fold_left (fun c m => apply_entity_mapping c (fst m) (snd m)) (u_maps u) c0) in *.
-  set (c2 := fold_left apply_despawn (u_despawns u) c1) in *.
+  set (c1 := fold_left apply_despawn (u_despawns u) c0) in *.
+  set (c2 := fold_left (fun c m => apply_entity_mapping c (fst m) (snd m)) (u_maps u) c1) in *.
   assert (Hm : same_meta c0 c').
   { apply bind_ok in H. destruct H as [r3 [E3 H]].
     assert (H1 : same_meta c0 c1).
-    { exact (fold_left_rel same_meta _ _ same_meta_refl same_meta_trans (fun c4 a _ => same_meta_mapping c4 (fst a) (snd a)) c0). }
+    { exact (fold_left_rel same_meta _ _ same_meta_refl same_meta_trans (fun c4 a _ => same_meta_despawn c4 a) c0). }
     assert (H2 : same_meta c1 c2).
-    { exact (fold_left_rel same_meta _ _ same_meta_refl same_meta_trans (fun c4 a _ => same_meta_despawn c4 a) c1). }
+    { exact (fold_left_rel same_meta _ _ same_meta_refl same_meta_trans (fun c4 a _ => same_meta_mapping c4 (fst a) (snd a)) c1). }
     assert (H3 : same_meta c2 (sr_client r3)).
     { refine (same_meta_run_array _ _ _ _ _ E3). intros c3 a r. apply same_meta_removals. }
     assert (H03 : same_meta c0 (sr_client r3)) by (eauto using same_meta_trans).
